@@ -718,6 +718,7 @@ def dump_chain(d):
 
 class C10(L1Prop):
     id = "C10"
+    overlap = True
     rule = ("exhaustive small scope: chain length 0..N x chain base nil/non-nil x existing snapshot at none / each "
             "position x requested version in {nil, each position, base, fresh, foreign, current snapshot}, each with a dump "
             "before and after and a GetSnapshot after; plus random long histories; non-trivial = the decision depends on "
@@ -739,6 +740,18 @@ class C10(L1Prop):
                                 ops.append(f"as 1 latest:1 b:100,{i}")
                         ops += ["dump 1", f"as 1 {tgt} b:200", "dump 1", "gs 1"]
                         out.append(Case(f"c10-x-{k}", ops)); k += 1
+        # the existing snapshot was stored for a version that was NOT the latest at the time (another
+        # replica had added d1 versions meanwhile), k more versions follow, then a second upload for
+        # every position: the versions-since counter (k) and the distance from the latest (k + d1) differ
+        for n1 in range(2, sizes(tier, 6, 8) + 1):
+            for d1 in range(1, min(4, n1 - 1) + 1):
+                for kk in range(0, 4):
+                    for t in range(0, n1 + kk):
+                        ops = ["ensure 1"] + [f"av 1 {'nil' if i == 0 else 'latest:1'} b:{i}" for i in range(n1)]
+                        ops.append(f"as 1 ver:1:{n1 - 1 - d1} b:100,{d1}")
+                        ops += [f"av 1 latest:1 b:{n1 + i}" for i in range(kk)]
+                        ops += ["dump 1", f"as 1 ver:1:{t} b:200,{t}", "dump 1", "gs 1"]
+                        out.append(Case(f"c10-late-{k}", ops)); k += 1
         nh, length = sizes(tier, (40, 60), (800, 300))
         for j in range(nh):
             g = HistGen(rng, 2, False, True, False)
